@@ -280,6 +280,24 @@ def run_codecs(ev, state, coords, job):
             got = None if k not in back else back[k].shape
             bad(f'xarray_to_data_dict(dynamic_covariate_data_to_xarray(d))[{k!r}] shape '
                 f'{got} / values differ from written {data[k].shape}')
+        # the same covariates with sample and time axes, read back with the
+        # dynamic-covariate reader (surface fields regain their level axis)
+        S = rng.randint(2, 3)
+        data2 = {'sst': rs.standard_normal((S, T, 1) + tuple(g.nodal_shape)),
+                 'wind': rs.standard_normal((S, T, L) + tuple(g.nodal_shape)),
+                 'sim_time': np.tile(times, (S, 1))}
+        ids = np.arange(S) + 3
+        ds2 = xarray_utils.dynamic_covariate_data_to_xarray(
+            data2, coords=coords, times=times, sample_ids=ids)
+        back2 = xarray_utils.xarray_to_dynamic_covariate_data(
+            ds2, covariates_to_include=['sst', 'wind'])
+        for k in data2:
+          if k not in back2 or np.shape(back2[k]) != data2[k].shape or not np.array_equal(
+              back2[k], data2[k]):
+            got = None if k not in back2 else np.shape(back2[k])
+            bad(f'xarray_to_dynamic_covariate_data(dynamic_covariate_data_to_xarray(d, '
+                f'sample+time))[{k!r}] shape {got} / values differ from written '
+                f'{data2[k].shape}')
   except Exception as e:  # pylint: disable=broad-except
     bad(f'covariate dataset round trip raised {type(e).__name__}: {str(e)[:160]}')
   # 9. state written / read under an external naming convention
